@@ -13,6 +13,7 @@ Requests (numbers decimal, rounds may be negative, ids `nil` or decimal):
   to   <mid> <step 0|1|2> <h> <r>
   height <mid>
   fq <N>                      -- the thresholds f and q on 64-bit unsigned arithmetic
+  fqfixed <N>                 -- same with the overflow-free quorum formula
 Answer of an input: `<actions> # <rules fired>`, both space separated, `-` when empty.
 -/
 open Juno.Proto Juno.C12
@@ -181,6 +182,11 @@ def step (st : DState) (line : String) : DState × String :=
     match n.toNat? with
     | some n =>
       if n < 2 ^ 64 then (st, s!"{fOf n} {qOf n}") else (st, "bad-op")
+    | none => (st, "bad-op")
+  | ["fqfixed", n] =>
+    match n.toNat? with
+    | some n =>
+      if n < 2 ^ 64 then (st, s!"{fOf n} {(qUFix (UInt64.ofNat n)).toNat}") else (st, "bad-op")
     | none => (st, "bad-op")
   | _ => (st, "bad-op")
 
